@@ -11,6 +11,9 @@
 _Bool nondet_bool(void);
 int nondet_int(void);
 #define B64_MAXLEN 0x5ffffff0
+#ifdef VERIF_B64_TRACK
+extern const char *g_jwk_tracked_str; extern const void *g_jwk_tracked_bin;
+#endif
 
 void *jwt_base64uri_decode(const char *src, int *ret_len)
 {
@@ -28,6 +31,11 @@ void *jwt_base64uri_decode(const char *src, int *ret_len)
 	void *p = malloc((size_t)n + 1);
 	__CPROVER_assume(p != NULL);
 	*ret_len = n;
+#ifdef VERIF_B64_TRACK
+	/* ghost: remember the decoding of the tracked JWK member's text */
+	if (src == g_jwk_tracked_str)
+		g_jwk_tracked_bin = p;
+#endif
 	return p;
 }
 
